@@ -31,6 +31,14 @@ class TaskFail(ValueError):
     pass
 
 
+class Finicky(Exception):
+    """an exception whose constructor does not accept its own .args back (cannot be rebuilt as type(e)(*e.args))"""
+
+    def __init__(self, code, msg):
+        super().__init__("%s: %s" % (code, msg))
+        self.code = code
+
+
 class BaseFail(BaseException):
     """a failure that is not an Exception (like SystemExit / KeyboardInterrupt)"""
 
@@ -58,6 +66,8 @@ def task(logdir, call_no, i, fails, delay, exc="TaskFail", extra=None):
             raise KeyboardInterrupt("task failed", i)
         if exc == "BaseFail":
             raise BaseFail("task failed", i)
+        if exc == "Finicky":
+            raise Finicky(i, "task failed")
         if exc == "UnpicklableExc":
             import threading
             raise TaskFail("task failed", i, threading.Lock())
